@@ -13,6 +13,36 @@ AUDIT_IMPORT = ("From Coq Require Import List NArith ZArith Bool.\nImport ListNo
 EXPLAIN = "explain"
 AXIOM_ALLOW = []
 THEOREMS = [
+    ('c19_get_index_rowmajor',
+     'forall ds idx : list N, valid ds idx -> get_index ds idx = Some (offset ds idx) /\\ offset ds idx < product ds'),
+    ('c19_get_index_injective',
+     'forall ds idx1 idx2 : list N, valid ds idx1 -> valid ds idx2 -> get_index ds idx1 = get_index ds idx2 -> idx1 = idx2'),
+    ('c19_get_index_surjective',
+     "forall (ds : list N) (k : N), k < product ds -> exists idx, valid ds idx /\\ get_index ds idx = Some k /\\ forall idx', valid ds idx' -> get_index ds idx' = Some k -> idx' = idx"),
+    ('c19_out_of_range_rejected',
+     'forall (A : Type) (t : tensor A) (idx : list N) (n : nat) (i d : N), nth_error idx n = Some i -> nth_error (dims t) n = Some d -> d <= i -> get_index (dims t) idx = None /\\ index t idx = None /\\ forall v, index_mut t idx v = None'),
+    ('c19_get_index_total',
+     'forall ds idx : list N, get_index ds idx = if validb ds idx then Some (offset ds idx) else None'),
+    ('c19_get_index_no_overflow',
+     'forall (W : N) (ds idx : list N), positive ds -> product ds <= W -> get_index_chk W ds idx = get_index ds idx'),
+    ('c19_constructors_reject',
+     'forall (A : Type) (ds : list N) (l : list A) (v : A), (In 0 ds -> from_vec ds l = None /\\ from_slice ds l = None /\\ new ds v = None) /\\ (N.of_nat (length l) <> product ds -> from_vec ds l = None /\\ from_slice ds l = None) /\\ (~ In 0 ds -> N.of_nat (length l) = product ds -> from_vec ds l = Some (mk ds l) /\\ from_slice ds l = Some (mk ds l) /\\ wf (mk ds l)) /\\ (~ In 0 ds -> new ds v = Some (mk ds (repeat v (N.to_nat (product ds)))) /\\ wf (mk ds (repeat v (N.to_nat (product ds)))))'),
+    ('c19_index_iter',
+     'forall (A : Type) (t : tensor A) (idx : list N), wf t -> valid (dims t) idx -> index t idx = nth_error (iter t) (N.to_nat (offset (dims t) idx)) /\\ index t idx <> None'),
+    ('c19_set_get',
+     "forall (A : Type) (t : tensor A) (idx : list N) (v : A), wf t -> valid (dims t) idx -> exists t', index_mut t idx v = Some t' /\\ wf t' /\\ dims t' = dims t /\\ index t' idx = Some v /\\ forall idx', valid (dims t) idx' -> idx' <> idx -> index t' idx' = index t idx'"),
+    ('c19_write_order',
+     'forall (A : Type) (t : tensor A), wf t -> write t = Some (render (dims t) (data t)) /\\ elems (render (dims t) (data t)) = data t'),
+    ('c19_wraps_char',
+     'forall ds : list N, product ds <> 0 -> forall (m : N) (c : nat), (c <= length ds)%nat -> ((c <= wraps ds m)%nat <-> (product (skipn (length ds - c) ds) | m))'),
+    ('c19_odometer_step',
+     'forall ds idx : list N, valid ds idx -> match rposition (fun p => negb (fst p + 1 =? snd p)) (combine idx ds) with | None => offset ds idx + 1 = product ds | Some pos => (pos < length ds)%nat /\\ valid ds (bump idx pos) /\\ offset ds (bump idx pos) = offset ds idx + 1 /\\ offset ds idx + 1 < product ds /\\ wraps ds (offset ds idx + 1) = (length ds - pos - 1)%nat end'),
+    ('c19_write_read_roundtrip',
+     'forall (A : Type) (t : tensor A), wf t -> exists out, write t = Some out /\\ read (dims t) out = Some t'),
+    ('c19_eq_iff',
+     'forall (A : Type) (e : A -> A -> bool), (forall x y, e x y = true <-> x = y) -> forall t u : tensor A, eq e t u = true <-> dims t = dims u /\\ data t = data u'),
+    ('c19_model_check_spec_check',
+     'forall c : case, model_check c = spec_check c'),
 ]
 RULE = ("every shape of rank 1..4 with extents <= K (K=3 quick, 5 thorough; quick adds sampled shapes with extents <= 6) "
         "plus rank 0: three histories per shape on Tensor<i64, D> with distinct offset-tagged elements — (from_vec) "
@@ -211,8 +241,8 @@ def nontrivial(c, obs):
 
 def classify(c, obs):
     kinds = sorted({o[0] for o in c["ops"]})
-    main = "index" if ("g" in kinds or "gi" in kinds) and "s" not in kinds else \
-        "index_mut" if "s" in kinds else "eq" if "eq" in kinds else "read" if "rd" in kinds else "other"
+    main = "eq" if "eq" in kinds else "read" if "rd" in kinds else "index_mut" if "s" in kinds else \
+        "index" if ("g" in kinds or "gi" in kinds) else "other"
     return "rank%d/%s/%s/%s" % (len(c["dims"]), c["ctor"], "panic" if obs.split()[0] == "P" else "ok", main)
 
 
@@ -426,6 +456,79 @@ def shrink(c):
     if n == 1 and ops[0][0] in ("w", "rt", "it") and c["ctor"] == "N":
         pass
     return out
+
+
+# ----------------------------------------------------------------------------- implementation-only search
+def py_expect(c):
+    """python oracle (row-major arithmetic) for a from_vec history of gi / g / it / w / rt ops on a valid tensor"""
+    dims, l = c["dims"], list(c["data"])
+    exp = []
+    for o in c["ops"]:
+        k = o[0]
+        if k in ("gi", "g"):
+            idx = o[1]
+            if all(i < d for i, d in zip(idx, dims)):
+                off = sum(i * prod(dims[j + 1:]) for j, i in enumerate(idx))
+                exp.append(off if k == "gi" else l[off])
+            else:
+                exp.append(None)
+        elif k == "it":
+            exp.append(l)
+        elif k == "w":
+            exp.append(enc_text(render(dims, l)))
+        elif k == "rt":
+            exp.append(("1", l))
+        else:
+            raise ValueError(k)
+    return exp
+
+
+def extra(ctx, known):
+    """larger shapes than Coq batches can afford (extents up to 12, up to 20 000 elements): every valid index and every
+    single-dimension overflow, checked here against row-major arithmetic.  A search, never counted as proof."""
+    import _driver
+    rng = _driver.Rng(ctx.seed + 19).fork("C19-big")
+    nshapes, cap = (12, 4000) if ctx.tier == "quick" else (120, 20000)
+    shapes_, seen = [], set()
+    while len(shapes_) < nshapes:
+        D = rng.range(1, 4)
+        s = [rng.range(1, 12) for _ in range(D)]
+        if prod(s) <= cap and max(s) > 5 and tuple(s) not in seen:
+            seen.add(tuple(s))
+            shapes_.append(s)
+    cases = []
+    for dims in shapes_:
+        n = prod(dims)
+        data = [tag(k, 1000) for k in range(n)]
+        ops = [["it"]]
+        for idx in all_idx(dims):
+            ops.append(["gi", idx])
+            ops.append(["g", idx])
+        for q, idx in enumerate(oor_idx(rng, dims)):
+            ops.append(["g" if q % 2 else "gi", idx])
+        ops += [["w"], ["rt"]]
+        cases.append({"dims": dims, "ctor": "V", "data": data, "ops": ops})
+    outs = _driver.run_impl(ctx.bins["debug"], [harness_line(c) for c in cases])
+    viol, nops = [], 0
+    for c, o in zip(cases, outs):
+        ok, res = parse_obs(c, o)
+        exp = py_expect(c)
+        nops += len(exp)
+        bad = None if ok else "constructor panicked"
+        if ok:
+            for op, r, e in zip(c["ops"], res, exp):
+                if r != e:
+                    bad = "op %s: implementation %s, row-major arithmetic %s" % (op[:2], str(r)[:80], str(e)[:80])
+                    small = {"dims": c["dims"], "ctor": "V", "data": c["data"], "ops": [op]}
+                    break
+        if bad:
+            viol.append({"name": "big-%s" % "x".join(map(str, c["dims"])), "kind": "counterexample",
+                         "payload": {"what": "implementation-only search on a larger shape: " + bad,
+                                     "case": small if ok else dict(c, ops=[])}})
+            break
+    return {"coverage": {"big_shapes": len(cases), "big_shape_operations": nops,
+                         "big_shapes_max_elements": max(prod(c["dims"]) for c in cases)},
+            "violations": viol}
 
 
 MANIFEST = {
